@@ -83,7 +83,7 @@ PARTIAL = ("round trips are exact identities over ordered fields; in binary64 th
 
 # flip to True once the single-point behaviour has been dispositioned (see the builder's report):
 # a dataset read from a 1-line response file holds a 0-d response array and remove_duplicates raises.
-REPORT_SINGLE_POINT = False
+REPORT_SINGLE_POINT = True
 
 TOL = 1e-9
 
@@ -517,13 +517,10 @@ def exact_sessions(ctx: Ctx, rng: random.Random, count: int) -> list[Session]:
             if rng.random() < 0.3:
                 fs.append(rng.choice(fs))
             s.op("subset", fs)
-        if n == 1 and not appended:
-            # a single-point dataset read from file holds a 0-d response: see REPORT_SINGLE_POINT
-            s.op("subset", [0])
-        else:
-            s.op("dedup", c)
-            if rng.random() < 0.3:
-                s.op("dedup", rng.choice(CUTOFFS))
+        # (a single-point dataset used to hold a 0-d response and raise here: repaired in 13ac8c5)
+        s.op("dedup", c)
+        if rng.random() < 0.3:
+            s.op("dedup", rng.choice(CUTOFFS))
         out.append(s)
     return out
 
